@@ -166,6 +166,9 @@ func regGen(sid int) regSession {
 	if sid%3 == 0 {
 		n = 150 + r.Intn(51)
 	}
+	if sid%7 == 1 {
+		n = 200 // the largest size, always present
+	}
 	var starts, ends []int
 	put := func(s, e int) { starts, ends = append(starts, s), append(ends, e) }
 	extremes := []int{minInt, minInt + 1, minInt + 2, minInt + 3, -2, -1, 0, 1, 2, maxInt - 3, maxInt - 2, maxInt - 1, maxInt}
